@@ -29,13 +29,14 @@ def reference(method, pattern, frame, peaks, upsample):
     return tuple(np.concatenate([o[k] for o in outs]) for k in range(4))
 
 
-def stmt_failure(method, pattern, frame, peaks, bc, upsample, ref=None):
-    """the property on the implementation: result with buffer count bc == per-peak reference; every entry written"""
+def stmt_failure(method, pattern, frame, peaks, bc, upsample, ref=None, cf=None):
+    """the property on the implementation: result with buffer count bc (and crop function cf: None = default, 'slicing') == per-peak
+    reference (default crop function, each peak alone); every entry written"""
     run = cl.run_fast if method == 'fast' else cl.run_full
     if ref is None:
         ref = reference(method, pattern, frame, peaks, upsample)
     try:
-        outs = run(pattern, frame, peaks, bc=bc, upsample=upsample)
+        outs = run(pattern, frame, peaks, bc=bc, upsample=upsample, crop_function=blc.crop_disks_from_frame_slicing if cf == 'slicing' else None)
     except Exception as e:  # noqa
         return 'raised %s: %s' % (type(e).__name__, e)
     if (outs[0] == -99).any() or np.isnan(outs[1]).any() or np.isnan(outs[2]).any() or np.isnan(outs[3]).any():
@@ -50,14 +51,16 @@ def stmt_failure(method, pattern, frame, peaks, bc, upsample, ref=None):
     return None
 
 
-def mk_replay(desc, frame, peaks, method, bc, upsample, fail):
+def mk_replay(desc, frame, peaks, method, bc, upsample, fail, cf=None):
     return {'kind': 'input', 'call': 'process_frame_%s' % method,
             'args': {'pattern': desc, 'frame': np.asarray(frame, dtype=np.float64).tolist(), 'peaks': [list(map(int, p)) for p in peaks],
-                     'method': method, 'buffer_count': int(bc), 'upsample': upsample},
+                     'method': method, 'buffer_count': int(bc), 'upsample': upsample, 'crop_function': cf},
             'failure': fail}
 
 
 def replay(body):
+    if 'frame_ints' in body.get('args', {}):
+        return cl.replay_case(body, 'C08')          # a failing input recorded by the model correspondence (cl.model_check)
     a = body['args']
     if body.get('call') == 'get_buf_count':
         r = blc.get_buf_count(a['crop_size'], a['n_peaks'], np.dtype(a['dtype']), a['limit'])
@@ -68,7 +71,7 @@ def replay(body):
         return 0 if ok else 1
     pattern = cl.pattern_from_desc(a['pattern'])
     frame = np.array(a['frame'], dtype=np.float32)
-    fail = stmt_failure(a['method'], pattern, frame, a['peaks'], a['buffer_count'], a['upsample'])
+    fail = stmt_failure(a['method'], pattern, frame, a['peaks'], a['buffer_count'], a['upsample'], cf=a.get('crop_function'))
     print(json.dumps({'replayed': {k: a[k] for k in ('pattern', 'peaks', 'method', 'buffer_count', 'upsample')}, 'failure_now': fail}, indent=1, default=str))
     if fail:
         print('VIOLATION property=C08 replay=(given)')
@@ -167,11 +170,15 @@ def run(ctx):
                     ref = tuple(r[:n] for r in refall)
                     bcs = range(1, n + 4) if (not upsample or n % 3 == 0) else (1, n, n + 1)
                     for bc in bcs:
-                        nruns += 1
-                        fail = stmt_failure(method, pattern, frame, peaks, bc, upsample, ref)
-                        if fail:
-                            ctx.violation('input', 'result depends on the buffer count: ' + fail, mk_replay(desc, frame, peaks, method, bc, upsample, fail))
-                            found = True
+                        for cf in ((None, 'slicing') if not upsample else (None,)):
+                            nruns += 1
+                            fail = stmt_failure(method, pattern, frame, peaks, bc, upsample, ref, cf)
+                            if fail:
+                                ctx.violation('input', 'result depends on the buffer count%s: ' % (' (slicing crop function)' if cf else '') + fail,
+                                              mk_replay(desc, frame, peaks, method, bc, upsample, fail, cf))
+                                found = True
+                                break
+                        if found:
                             break
                     if found:
                         break
@@ -182,11 +189,15 @@ def run(ctx):
                 pp = [allpeaks[i] for i in perm] + [allpeaks[0], allpeaks[-1]]
                 refp = tuple(np.concatenate([r[perm], r[[0, nS - 1]]]) for r in refall)
                 for bc in (1, 3, len(pp)):
-                    nruns += 1
-                    fail = stmt_failure(method, pattern, frame, pp, bc, upsample, refp)
-                    if fail:
-                        ctx.violation('input', 'result depends on peak order / other peaks: ' + fail, mk_replay(desc, frame, pp, method, bc, upsample, fail))
-                        found = True
+                    for cf in (None, 'slicing'):
+                        nruns += 1
+                        fail = stmt_failure(method, pattern, frame, pp, bc, upsample, refp, cf)
+                        if fail:
+                            ctx.violation('input', 'result depends on peak order / other peaks%s: ' % (' (slicing crop function)' if cf else '') + fail,
+                                          mk_replay(desc, frame, pp, method, bc, upsample, fail, cf))
+                            found = True
+                            break
+                    if found:
                         break
             if found:
                 break
@@ -202,4 +213,4 @@ def run(ctx):
                     'sequence of the real loops (recorded with a wrapping crop function) against the model under vm_compute; pipeline model vs outputs '
                     'under permutation/duplication; oracle: every buffer count 1..n+3 vs each peak processed alone (1e-5 relative).',
         rule='(K1) exhaustive box of get_buf_count arguments; (K2) n=0..nmax x bc=1..n+3 x {fast, full}; (K3) random frames with permuted/duplicated peak '
-             'lists; (S) n=1..N, every bc (upsampling: subset), permutations, duplicates; distinct by (n, bc, method) / (pattern, frame, peak).')
+             'lists; (S) n=1..N, every bc (upsampling: subset), both crop functions, permutations, duplicates (also first = last peak of a block); distinct by (n, bc, method) / (pattern, frame, peak).')
